@@ -491,6 +491,7 @@ class Kernel(object):
         self.touched = {}       # fd -> list of (call) for decoy detection
         self.watch = set()
         self.closed_log = []
+        self.stale_kills = []
         self.keep_logs = bool(world.scn.get('keep_logs', True))
 
     # ------------------------------------------------------------ wakeups
@@ -644,6 +645,9 @@ class Kernel(object):
 
     def kill(self, pid, sig):
         p = self.procs.get(pid)
+        if p is not None and p.state == 'reaped':
+            # the pid was given back to the kernel: it may belong to anybody now
+            self.stale_kills.append((pid, int(sig), self.w.callsite()))
         if p is None or p.state == 'reaped':
             raise oserr(errno.ESRCH)
         if sig == 0:
